@@ -80,6 +80,9 @@ void ControlFlowExecutor::execute_while_statement(const ASTNode *node) {
     } catch (const BreakException &e) {
         // break文でループ脱出
         debug_msg(DebugMsgId::INTERPRETER_WHILE_BREAK, "");
+    } catch (const ReturnException &) {
+        interpreter_->pop_defer_scope(); // the loop is left for good
+        throw;
     }
 
     // whileループのdeferスコープを終了（deferを実行）
@@ -194,6 +197,9 @@ void ControlFlowExecutor::execute_for_statement(const ASTNode *node) {
     } catch (const BreakException &e) {
         // break文でループ脱出
         debug_msg(DebugMsgId::INTERPRETER_WHILE_BREAK);
+    } catch (const ReturnException &) {
+        interpreter_->pop_defer_scope(); // the loop is left for good
+        throw;
     }
 
     // v0.13.0 Phase 2.0 FIX: init式で宣言された変数を削除
